@@ -1,4 +1,74 @@
+import LdarModel.Model.Effects
 import LdarModel.Driver.Proto
-/- driver stub: replaced by the component's real driver -/
-open LdarModel.Proto
-def main : IO Unit := runDriver (fun (_ : Unit) (_ : List String) => ((), "bad-op")) ()
+/-
+Driver for the effect model (C12): evaluates the abstract machine on small schedules.
+  run <reseed 0/1> <seedA> <seedB> <progs> <workers>
+     op      = [tag,a,b]  tag 0 seed a | 1 draw gen a (0 numpyGlobal,1 stdlibRandom,2 other) | 2 read a
+                          | 3 write a b | 4 comp a | 5 emit
+     prog    = [[op,...],[[op,...],...],[op,...]]          prologue, days, epilogue
+     progs   = [prog,...]
+     worker  = [np,std,oth,[[progIndex,sim],...]]
+     workers = [worker,...]
+     generator folder: seed sim d = seedA*sim + d + seedB ; scenario sim = sim + 3 ; shared containers start empty
+  -> <outputs per worker per task> | <the same tasks run alone> | <clean flag per prog (all containers relevant)>
+-/
+open LdarModel LdarModel.Effects LdarModel.Proto
+
+def parseGen : Nat → Option Gen
+  | 0 => some .numpyGlobal
+  | 1 => some .stdlibRandom
+  | 2 => some .other
+  | _ => none
+
+def parseOp (s : String) : Option Op := do
+  match ← natList? s with
+  | [0, a, _] => some (.seed a)
+  | [1, a, _] => (parseGen a).map .draw
+  | [2, a, _] => some (.read a)
+  | [3, a, b] => some (.write a b)
+  | [4, a, _] => some (.comp a)
+  | [5, _, _] => some .emit
+  | _ => none
+
+def parseProg (s : String) : Option Prog := do
+  match ← splitTop s with
+  | [pro, days, epi] =>
+    let pro ← listOf? parseOp pro
+    let days ← listOf? (listOf? parseOp) days
+    let epi ← listOf? parseOp epi
+    some { prologue := pro, body := days, epilogue := epi }
+  | _ => none
+
+def parseWorker (progs : List Prog) (s : String) : Option Worker := do
+  match ← splitTop s with
+  | [np, std, oth, ts] =>
+    let np ← nat? np
+    let std ← nat? std
+    let oth ← nat? oth
+    let ts ← listOf? natList? ts
+    let tasks ← ts.mapM (fun t => match t with
+      | [i, sim] => (progs[i]?).map (fun p => ({ prog := p, sim := sim } : Task))
+      | _ => none)
+    some { np := np, std := std, oth := oth, tasks := tasks }
+  | _ => none
+
+def showOut (o : List Nat) : String := showList toString o
+
+def step (_ : Unit) (toks : List String) : Unit × String :=
+  match toks with
+  | ["run", rs, a, b, progs, workers] =>
+    match bool? rs, nat? a, nat? b, listOf? parseProg progs with
+    | some rs, some a, some b, some progs =>
+      match listOf? (parseWorker progs) workers with
+      | some ws =>
+        let F : Folder := { seed := fun sim d => a * sim + d + b, scenario := fun sim => sim + 3 }
+        let sh0 : Nat → List Nat := fun _ => []
+        let outs := runSchedule rs F sh0 ws
+        let al := ws.map (fun w => w.tasks.map (alone rs F sh0))
+        let cl := progs.map (fun p => p.clean (fun _ => true))
+        ((), showList (showList showOut) outs ++ " | " ++ showList (showList showOut) al ++ " | " ++ showList showBool cl)
+      | none => ((), "bad-op")
+    | _, _, _, _ => ((), "bad-op")
+  | _ => ((), "bad-op")
+
+def main : IO Unit := runDriver step ()
